@@ -164,6 +164,26 @@ theorem roles_equation_order_independent (M₁ M₂ : RModel) (W₁ : WF M₁) (
    isConstant_sameSet W₁ W₂ h, fun _ _ => derivatives_sameSet W₁ W₂ h, fun _ _ => derivedQuantities_sameSet W₁ W₂ h,
    getValue_sameSet W₁ W₂ h, den_sameSet W₁ W₂ h⟩
 
+/-- **the role of every variable is a function of the SET of equations — well-formed or not** (since the `fix:` commit
+    "the roles that come from the ODEs win"): `Model.graph` types all left-hand sides first and assigns STATE, then
+    FREE, for every ODE afterwards, so permuting the equation list changes the `Variable.type` (and with it the
+    `variable_type` of the graph node) of NO variable — in particular not of a free variable that has a defining
+    equation, which `WF` excludes (`freeOk`). Hypothesis: no variable is assigned both a bare number and something else
+    (`Model.graph` refuses two equations with the same left-hand side). -/
+theorem variable_types_equation_order_independent (eqs eqs' : List Eqn) (hp : eqs'.Perm eqs)
+    (hfun : ∀ e₁ ∈ eqs, ∀ e₂ ∈ eqs, ∀ v, e₁.lhs = .var v → e₂.lhs = .var v → e₁.bareQuantity = e₂.bareQuantity)
+    (x : Nat) : tyOf (typeMap eqs') x = tyOf (typeMap eqs) x :=
+  tyOf_typeMap_perm hp hfun x
+
+/-- BEFORE that fix (`typeMapOld`: one loop, the last write stays): `t = …` and `dx/dt = …` in the two orders made `t`
+    FREE or COMPUTED; now FREE in both -/
+theorem variable_types_order_dependent_before_fix :
+    tyOf (typeMapOld [⟨0, .var 0, [], [], false⟩, ⟨1, .deriv 1 0 1, [], [], false⟩]) 0 = some .free ∧
+    tyOf (typeMapOld [⟨1, .deriv 1 0 1, [], [], false⟩, ⟨0, .var 0, [], [], false⟩]) 0 = some .computed ∧
+    tyOf (typeMap [⟨0, .var 0, [], [], false⟩, ⟨1, .deriv 1 0 1, [], [], false⟩]) 0 = some .free ∧
+    tyOf (typeMap [⟨1, .deriv 1 0 1, [], [], false⟩, ⟨0, .var 0, [], [], false⟩]) 0 = some .free :=
+  typeMapOld_order_dependent
+
 -- ------------------------------------------------------------------------------------------------ non-vacuity
 /-- x (2.5), z (1), t, a, y, w with `a = 3`, `dx/dt = a*x + t`, `dz/dt = dx/dt * 2` (an ODE whose right-hand side
     mentions another derivative), `y = dx/dt + 1`, `w = dz/dt + y`; the graph is read in between -/
